@@ -182,6 +182,21 @@ func TestVerifH10(t *testing.T) {
 		}
 		vt.Stat("h10.channel-wrap")
 	}
+	// permissions of TCP allocations: the caller's *net.TCPAddr must be copied too (a caller may reuse the variable)
+	{
+		pm := newPermissionMap()
+		ta := &net.TCPAddr{IP: net.IPv4(10, 0, 0, 1), Port: 5000}
+		pm.insert(ta, &permission{})
+		ta.IP, ta.Port = net.IPv4(10, 0, 0, 2), 6000
+		pm.insert(ta, &permission{})
+		got := map[string]bool{}
+		for _, a := range pm.addrs() {
+			got[a.String()] = true
+		}
+		if !got["10.0.0.1:5000"] || !got["10.0.0.2:6000"] {
+			vt.Alarm("permission-address-aliased", "permissions inserted for 10.0.0.1:5000 and then (same variable) 10.0.0.2:6000 are now listed as %v", got)
+		}
+	}
 	// truncated and non-STUN replies
 	h10One(vt, alloc, [][]byte{replies["success"][:10]}, "truncated")
 	h10One(vt, alloc, [][]byte{replies["success-attr"][:25]}, "truncated")
